@@ -7,7 +7,7 @@ from vf.engine import terms as T
 from vf.engine.values import Sym, SArr, SSeq, SList, SObj, Opaque, wrap, term_of, is_scalar, PyRaise
 from vf.lib.out_models import AxesObj, FrameObj, SeriesObj
 from vf.contract import Contract, contract
-from ._util import real, integer, sym_array, fresh_index
+from ._util import real, integer, sym_array, fresh_index, same_data
 
 C = "virocon.contours."
 P = "virocon.plotting."
@@ -50,7 +50,7 @@ class SaveContour(Contract):
         root, ext = os.path.splitext(case["path"])
         want_path = case["path"] if ext else case["path"] + ".txt"
         cx.oblige("post.path", len(a) >= 1 and a[0] == want_path, "post", "'.txt' appended iff the file name has no extension")
-        cx.oblige("post.savetxt_args.data", len(a) >= 2 and a[1] is self.coords, "post", "the rows written are the contour's coordinates themselves, in order")
+        cx.oblige("post.savetxt_args.data", len(a) >= 2 and same_data(cx, a[1], self.coords), "post", "the rows written are the contour's coordinates themselves, in order")
         cx.oblige("post.savetxt_args.format", k.get("fmt") == "%1.6f" and k.get("delimiter") == ";" and k.get("comments") == "", "post", "6 decimals, ';' separated, no comment prefix")
         nd = case["nd"]
         if self.sem:
@@ -241,3 +241,144 @@ class ReadBenchmark(Contract):
         cx.oblige("post.index", isinstance(ix, SeriesObj) and ix.frame is f and ix.col == ("column", 0) and ix.converted is not None and ix.converted.get("format") == "%Y-%m-%d-%H", "post",
                   "the index is that column parsed as time stamps")
         cx.oblige("post.returns_frame", out.value is f or getattr(out.value, "copy_of", None) is f, "post", "the frame that was read (or a copy of it): every row, in order")
+
+
+# =============================================================================== plot_dependence_functions
+class _FuncObj(Opaque):
+    """a plain Python function object as seen by the plotting code (only its __name__ is read)"""
+    type_name = "function"
+
+    def getattr_(self, itp, name):
+        if name == "__name__":
+            return "user_function"
+        raise PyRaise("AttributeError", name)
+
+
+class _DepPlot(Opaque):
+    """fitted dependence function as seen by the plotting code: callable on the abscissa grid, no latex label"""
+    type_name = "DependenceFunction"
+
+    def __init__(self, tag):
+        self.tag = tag
+        self.calls = []
+        self.func = _FuncObj()
+
+    def getattr_(self, itp, name):
+        if name == "latex":
+            return None
+        if name == "func":
+            return self.func
+        if name == "parameters":
+            return {}
+        raise PyRaise("AttributeError", name)
+
+    def call(self, itp, args, kwargs):
+        x = args[0]
+        n = x.shape[0] if isinstance(x, SArr) else 1
+        y = sym_array(itp.cx, f"dep_{self.tag}_values{len(self.calls)}", (n,), owner="call")
+        self.calls.append((x, y))
+        return y
+
+
+DEP_PLOT_CASES = [dict(co=co, fitted=f, rename=r, ax=a)
+                  for co in ([None, 0], [None, 0, 0], [None, None, 1], [None, 0, 1])
+                  for f in (True, False) for r in (False, True) for a in ("new",)] + [dict(co=[None, 0], fitted=True, rename=False, ax="given")]
+
+
+@contract(P + "plot_dependence_functions", ["C20"], DEP_PLOT_CASES, name="plot_dependence_functions")
+class PlotDependence(Contract):
+    """one axes per conditional parameter, in model order; on it the curve dep(x) over linspace(0, max conditioning
+    value) (0..10 for an unfitted model) and - for a fitted model - the per-interval estimates OF THAT PARAMETER
+    against the conditioning values, scattered as stored; the y label is the parameter name (renamed iff requested).
+    Every conditional variable has a FIXED first parameter and two dependent ones (so that a positional mix-up
+    between 'parameters of the distribution' and 'conditional parameters' is visible)."""
+    M = 3  # intervals of a fitted variable
+
+    def case_label(self, case):
+        return f"conditional_on={case['co']},fitted={case['fitted']},par_rename={case['rename']},axes={case['ax']}"
+
+    def inputs(self, itp, case):
+        cx = itp.cx
+        co = case["co"]
+        self.dists = []
+        self.info = []   # (dim, par_name, dep, conditioning values or None, estimates or None)
+        for d, c in enumerate(co):
+            if c is None:
+                self.dists.append(Opaque())
+                continue
+            deps = {"beta": _DepPlot(f"d{d}_beta"), "gamma": _DepPlot(f"d{d}_gamma")}
+            cv = ppi = None
+            if case["fitted"]:
+                cv = [real(cx, f"ref{d}_{j}") for j in range(self.M)]
+                ppi = [{"alpha": real(cx, f"fixed_alpha{d}"), "beta": real(cx, f"est{d}_beta{j}"), "gamma": real(cx, f"est{d}_gamma{j}")} for j in range(self.M)]
+            dist = SObj("virocon.distributions.ConditionalDistribution", {"conditional_parameters": dict(deps), "conditioning_values": cv, "parameters_per_interval": ppi}, owner="arg")
+            self.dists.append(dist)
+            for pn, dep in deps.items():
+                self.info.append((d, pn, dep, cv, [pp[pn] for pp in ppi] if ppi else None))
+        self.model = SObj("virocon.jointmodels.GlobalHierarchicalModel", {"n_dim": len(co), "conditional_on": list(co), "distributions": list(self.dists)}, owner="arg")
+        kw = {}
+        self.rename = {"beta": "renamed beta"} if case["rename"] else {}
+        if case["rename"]:
+            kw["par_rename"] = dict(self.rename)
+        self.given_axes = None
+        if case["ax"] == "given":
+            self.given_axes = [AxesObj(f"given{i}") for i in range(len(self.info))]
+            kw["axes"] = list(self.given_axes)
+        return [self.model], kw
+
+    def post(self, itp, case, inp, out):
+        cx = itp.cx
+        if out.outcome != "return":
+            cx.oblige("post.returns", False, "post", f"raised {out.exc}: {out.msg}")
+            return
+        axes = out.value
+        want_n = len(self.info)
+        ok = isinstance(axes, list) and len(axes) == want_n and all(isinstance(a, AxesObj) for a in axes)
+        cx.oblige("post.one_axes_per_conditional_parameter", ok, "post")
+        if not ok:
+            return
+        if self.given_axes is not None:
+            cx.oblige("post.uses_given_axes", all(a is b for a, b in zip(axes, self.given_axes)) and not cx.ghost.get("new_axes"), "post")
+        for i, (d, pn, dep, cv, est) in enumerate(self.info):
+            ax = axes[i]
+            tag = f"dim{d}.{pn}"
+            plots = [e for e in ax.events if e[0] == "plot"]
+            scat = [e for e in ax.events if e[0] == "scatter"]
+            okp = len(plots) == 1 and len(dep.calls) == 1 and len(plots[0][1]) >= 2
+            cx.oblige(f"post.{tag}.one_curve", okp, "post", "exactly one curve, from one evaluation of THIS dependence function")
+            if okp:
+                x, y = dep.calls[0]
+                px, py = plots[0][1][0], plots[0][1][1]
+                okx = all(isinstance(v, SArr) and v.ndim == 1 for v in (x, px, py))
+                cx.oblige(f"post.{tag}.grid_kind", okx, "post")
+                if okx:
+                    k = cx.fresh("k_grid", "int")
+                    cx.assume(T.land(T.ge(k, 0), T.lt(k, x.shape[0])))
+                    cx.oblige(f"post.{tag}.curve_is_dep_of_x", T.land(T.eq(px.shape[0], x.shape[0]), T.eq(py.shape[0], y.shape[0]), T.eq(px.get((k,)), x.get((k,))), T.eq(py.get((k,)), y.get((k,)))), "post",
+                              "the curve is (abscissa grid, the dependence function's own values on that grid), value by value")
+                    if cv is None:
+                        hi = 10
+                    else:
+                        hi = cv[0].t
+                        for v in cv[1:]:
+                            hi = T.ite(T.gt(v.t, hi), v.t, hi)
+                    cx.oblige(f"post.{tag}.grid", T.land(T.gt(x.shape[0], 1), T.eq(T.mul(x.get((k,)), T.sub(x.shape[0], 1)), T.mul(k, hi))), "post",
+                              "abscissa grid = linspace(0, largest conditioning value) (0..10 for an unfitted model)")
+            if est is None:
+                cx.oblige(f"post.{tag}.no_estimates_unfitted", not scat, "post")
+            else:
+                oks = len(scat) == 1 and len(scat[0][1]) >= 2
+                cx.oblige(f"post.{tag}.one_scatter", oks, "post")
+                if oks:
+                    xs, ys = scat[0][1][0], scat[0][1][1]
+                    xs_items = itp.iterate_concrete(xs) if not isinstance(xs, SArr) else [Sym(xs.get((j,))) for j in range(self.M)]
+                    ys_items = itp.iterate_concrete(ys) if not isinstance(ys, SArr) else [Sym(ys.get((j,))) for j in range(self.M)]
+                    okl = xs_items is not None and ys_items is not None and len(xs_items) == self.M and len(ys_items) == self.M
+                    cx.oblige(f"post.{tag}.scatter_length", okl, "post")
+                    if okl:
+                        for j in range(self.M):
+                            cx.oblige(f"post.{tag}.estimate.{j}", T.land(T.eq(term_of(xs_items[j]), cv[j].t), T.eq(term_of(ys_items[j]), est[j].t)), "post",
+                                      "marker j = (conditioning value j, interval j's estimate of THIS parameter)")
+            yl = [e for e in ax.events if e[0] == "set_ylabel"]
+            cx.oblige(f"post.{tag}.ylabel", len(yl) == 1 and yl[0][1] and yl[0][1][0] == self.rename.get(pn, pn), "post", "parameter name, renamed iff requested")
+        cx.oblige("frame.model", not self.model.writes and all(not getattr(d, "writes", None) for d in self.dists), "frame")
